@@ -128,6 +128,11 @@ def shardBacked (s : State) : Bool :=
 def noOverdueShard (s : State) : Bool :=
   s.shards.all (fun sh => sh.status ≠ ShardCompleted || s.h ≤ (addU64 sh.createdAt sh.duration : Int))
 
+/-- when a model's last shard and order have gone, the model has gone too (no committed model
+    without any order left; models whose first order is still in flight are status New) -/
+def metaHasOrder (s : State) : Bool :=
+  s.metas.all (fun m => m.status ≠ MetaComplete || s.orders.any (fun o => o.dataId = m.dataId))
+
 /-! ### C04 payment conservation at quiescence -/
 /-- when no order and no shard is left, the order escrow is empty and the market escrow holds only
     unclaimed provider income plus rounding dust (less than one coin per shard settlement) -/
